@@ -216,7 +216,9 @@ def run(tier, seed, log):
         results,
         "every ordered multigraph of each space x every membership list (subsets, reversed order, empty) x "
         "rvfunc {None, label} x refunc {None, title}; the Network's nodes / arrowed edges (as a multiset) / "
-        "plain edges are compared with the graph; non-trivial = non-empty universe and at least one link")
+        "plain edges are compared with the graph; for one callback combination every export is preceded by exports "
+        "of the universe of all vertices that fail (edge-title callback; node-label callback at every vertex index); "
+        "non-trivial = non-empty universe and at least one link")
     rep.assumptions = ["pyvis itself merges repeated undirected edges between the same node pair; the statement "
                        "only requires such links to leave their nodes joined"]
     return rep.finish(confirm=replay)
